@@ -212,7 +212,9 @@ fn transform(
             ));
         }
 
-        for index in 0..n {
+        // The number of successes is not an index: every tuple gets its
+        // residual (NaN for the ones that failed)
+        for index in 0..operands.len() {
             operands[index] = operands[index] - buffer[index];
         }
 
